@@ -104,6 +104,13 @@ pub fn concurrent_log(seed: u64, worker: usize, slot: &Slot, with_fault: bool) {
         let mut rng = rng.fork();
         handles.push(thread::spawn(move || {
             for b in 0..per {
+                if rng.chance(1, 4) {
+                    // an explicit fsync() joins the fsync queue with offset 0; it must not
+                    // weaken what the appenders coalesced with it are promised
+                    if log.fsync().is_err() {
+                        failed.fetch_add(1, Ordering::SeqCst);
+                    }
+                }
                 let mut wb = WriteBatch::default();
                 let mut keys = Vec::new();
                 for e in 0..rng.range(1, 3) {
